@@ -133,7 +133,7 @@ pub fn run(prop: &str, req: &str, rep: &str, outfile: &str) {
         }
     }
     // properties whose checks also run package sessions: the history oracle's failures for them
-    if ["C04", "C07", "C11"].contains(&prop) {
+    if ["C04", "C07", "C11", "C17", "C13"].contains(&prop) {
         let mut w = crate::walk::Walk::new();
         for (i, (q, r)) in reqs.iter().zip(reps.iter()).enumerate() {
             let first = q.split(' ').next().unwrap_or("");
